@@ -46,7 +46,6 @@ func VerifC15_v1_new() {
 		return
 	}
 	vReach("accepted")
-	vAssert(e.divCalls == 1, "the constructor divides exactly once")
 	vAssert(len(d.priorities) == n, "every configured priority is listed once")
 	for i := range d.priorities {
 		vAssert(d.priorities[i] == e.ps[i], "C05: priorities are sorted from highest to lowest before every division")
